@@ -63,7 +63,7 @@ impl Prop for Repair {
         "fault_enumeration"
     }
     fn rule(&self) -> String {
-        let common = "run = one seeded valid writer history (as C01, with flushes, block-lookalike content on some runs) written to the simulated sink; crash fault = the sink dies after n accepted bytes, i.e. the stored image is the first n bytes. On s0/s1 images up to 2600 bytes EVERY n in 0..=len is taken (exhaustive in the crash point for the workloads visited); on larger images windows of +-20 bytes around every structural anchor of the layout map (header end, every chunk payload/tag edge, every compressed-block edge, every file-layer block, end marker, index) plus a seeded sample. Each cut image is repaired in authenticated and unauthenticated mode through the simulated source with a step budget, and the produced archive is read back with the normal reader. evaluations = repairs judged; distinct_nontrivial = distinct (variant, layers, mode, region class of the cut, anchor?, stop status, unfinished?) signatures.";
+        let common = "run = one seeded valid writer history (as C01, with flushes, block-lookalike content on some runs) written to the simulated sink; crash fault = the sink dies after n accepted bytes, i.e. the stored image is the first n bytes. On s0/s1 images up to 2600 bytes EVERY n in 0..=len is taken (exhaustive in the crash point for the workloads visited); on larger images windows of +-20 bytes around every structural anchor of the layout map (header end, every chunk payload/tag edge, every compressed-block edge, every file-layer block, end marker, index) plus a seeded sample; the last 24 (thorough: 240) runs use production constants and one content block longer than the 8 MiB repair copy buffer, and SEARCH the crash point (bisection on the recovered length) at which the bytes recovered from that block end exactly on the buffer edge, then judge the 7 cuts around it. Each cut image is repaired in authenticated and unauthenticated mode through the simulated source with a step budget, and the produced archive is read back with the normal reader. evaluations = repairs judged; distinct_nontrivial = distinct (variant, layers, mode, region class of the cut, anchor?, stop status, unfinished?) signatures.";
         if self.id == "C02" {
             format!("{common} Clauses: no panic/budget overrun; for n >= header length from_config and convert_to_archive return Ok; repaired archive opens and reads back with consistent size/hash; names subset of original; every recovered file is a prefix of the original; files not reported unfinished are complete; EndOfOriginalArchiveData only if everything was recovered.")
         } else {
@@ -100,6 +100,41 @@ impl Prop for Repair {
                 _ => "prod",
             },
         };
+        let edge_runs = match tier {
+            Tier::Quick => 24,
+            Tier::Thorough => 240,
+        };
+        if run + edge_runs >= self.runs(tier) {
+            // production constants, one content block LONGER than the repair copy buffer (8 MiB): the crash point is
+            // searched (exec) so that the bytes recovered from that block stop exactly at the buffer's edge
+            let k = run + edge_runs - self.runs(tier);
+            let variant = if tier == Tier::Thorough && k % 3 == 2 { "prod" } else { "prodv" };
+            let vc = consts_of(variant);
+            let cache = vc.model_consts().repair_cache;
+            let mut cfg = gen_cfg(&mut rng, variant, vc.hooks);
+            cfg.layers = (k % 4) as u8;
+            if k % 8 < 4 {
+                cfg.layers |= L_COMP;
+            }
+            cfg.recipients = if cfg.enc() { cfg.recipients.max(1) } else { 0 };
+            cfg.reader = 0;
+            cfg.level = *rng.pick(&[0u32, 1, 2, 5]);
+            let pre = if rng.chance(1, 2) { 0 } else { rng.range(1, 3 * vc.chunk) as usize };
+            let n = cache + rng.range(1, cache as u64 / 4) as usize;
+            let data = if k % 5 == 4 { Data::Text { n, seed: rng.u64() } } else { Data::Rand { n, seed: rng.u64() } };
+            let mut ops = vec![WOp::Start { f: 0, name: Name::lit("big") }];
+            if pre > 0 {
+                ops.push(WOp::Append { f: 0, data: Data::Rand { n: pre, seed: rng.u64() }, src: Src::exact() });
+            }
+            ops.push(WOp::Append { f: 0, data, src: Src::exact() });
+            ops.push(WOp::End { f: 0 });
+            ops.push(WOp::Add { name: Name::lit("tail"), data: Data::Period { n: 100, p: 7 }, src: Src::exact() });
+            ops.push(WOp::Finalize);
+            let mut case = Case::new(self.id, cfg, ops);
+            case.params.insert("cache_edge".into(), (pre + cache) as i64);
+            case.params.insert("cut_seed".into(), 1);
+            return case;
+        }
         let vc = consts_of(variant);
         let mut c = vc.model_consts();
         let big = vc.chunk > 1000;
@@ -190,7 +225,36 @@ impl Prop for Repair {
                 continue;
             }
             let mut prev: Option<(usize, BTreeMap<String, Vec<u8>>)> = None;
-            for &n in &cuts {
+            let edge = case.param("cache_edge", 0) as usize;
+            let searched: Vec<usize>;
+            let cuts: &Vec<usize> = if edge > 0 && case.faults.is_empty() {
+                // smallest crash point from which at least `edge` bytes of "big" come back (bisection: the recovered
+                // length is monotone in the cut, which C05 checks); the judged cuts are the 7 around it
+                let f = |n: usize| -> usize {
+                    let mut rcfg = rcfg0.clone();
+                    rcfg.budget = 200 * (n as u64) + 20_000;
+                    let out = s.repair(Rc::new(image[..n].to_vec()), &rcfg, auth, &ocfg, &Sched::Full);
+                    if out.panic.is_some() || out.init.is_err() || !matches!(out.convert, Some(Ok(_))) {
+                        return 0;
+                    }
+                    read_all(s, &Rc::new(out.out_image), &plain_rcfg).ok().and_then(|m| m.get("big").map(Vec::len)).unwrap_or(0)
+                };
+                let (mut lo, mut hi) = (hlen.min(len), len);
+                while lo < hi {
+                    let mid = lo + (hi - lo) / 2;
+                    if f(mid) >= edge {
+                        hi = mid;
+                    } else {
+                        lo = mid + 1;
+                    }
+                }
+                crate::seams::fired("crash_cut_at_repair_buffer_edge");
+                searched = (lo.saturating_sub(3)..=(lo + 3).min(len)).collect();
+                &searched
+            } else {
+                &cuts
+            };
+            for &n in cuts {
                 let fault = Fault::Cut { n };
                 crate::seams::fired("crash_cut");
                 let cls = format!("auth={auth}");
